@@ -187,6 +187,13 @@ def run_step(w: World, op: dict, *, probes=None, index_every=True) -> StepResult
                 if ok and plan.after is not None:
                     guard(plan.after, result)
 
+    # caller-owned dicts handed to nutree must stay untouched (no aliasing)
+    for name, (live, pristine) in w.shared_dicts.items():
+        if live != pristine:
+            viol.append(Violation("C04", "caller-dict-mutated",
+                                  f"the dict passed to update_meta() ({name}) was modified by a "
+                                  f"later operation on a node", plan.trigger))
+            w.shared_dicts[name] = (dict(pristine), pristine)
     # 3. removed nodes (C01) and index (C02)
     if struct_ok and not viol:
         for i in _live_slots(w):
